@@ -85,6 +85,18 @@ theorem transport_error_reveals_key (addr uri k msg : Str) (hk : ∀ c ∈ k, c 
   simp only [prefixGet, urlError, urlPrefix, goQuote_append, goQuote_id hk, goQuote_cons_amp, List.append_assoc,
     List.cons_append, List.nil_append]
 
+/-- **A device that quotes the request in its answer** (an error text echoing the URL with `password=` /
+`key=`, the form body, the cookie) reveals the secret itself: the replies of all theorems above are the
+same in both runs, i.e. they do not depend on the secret — and that is necessary.  Here the keygen
+answer quotes the request URL; the `.login` entries differ.  (Observed on the real code with such a
+simulated device, faults `quote:url:*`: the secret stands in the sinks exactly inside the quotation, where
+the model run on the same replies puts it; a quotation without credentials, `quote:cmd:*`, stays clean.) -/
+theorem reply_quoting_request_counterexample :
+    let body (p : Str) : Str :=
+      "<response status='error'><msg>Invalid request QUOTED[/api?password=".toList ++ p ++ "&type=keygen]QUOTED</msg></response>".toList
+    keygen "https://h".toList "admin".toList "pw1".toList (.fail (body "pw1".toList) "No success".toList) ≠
+      keygen "https://h".toList "admin".toList "pw2".toList (.fail (body "pw2".toList) "No success".toList) := by decide
+
 /-- **F-C17c (fixed, c4a38c5)**: with the regexp `[?]key=.*?&` the logged request URL showed what stands
 behind an `&` of the key. -/
 theorem api_key_amp_counterexample_before_fix :
@@ -449,7 +461,7 @@ def obligations : List Lean.Name := [
   ``mask_uri_independent, ``mask_pass_independent, ``mask_api_uri_independent, ``mask_body_independent,
   ``mask_error_independent, ``keygen_independent, ``keygen_truncated_independent,
   ``keygen_status_log_independent, ``ha_check_transport_error_independent,   ``prefix_get_error_independent_partial, ``transport_error_reveals_key,
-  ``api_key_amp_counterexample_before_fix, ``key_newline_counterexample_before_fix,
+  ``reply_quoting_request_counterexample, ``api_key_amp_counterexample_before_fix, ``key_newline_counterexample_before_fix,
   ``mask_body_spellings_independent, ``mask_body_attributes_independent, ``key_element_spelling_counterexample_before_fix,
   ``truncated_key_counterexample_before_fix, ``mask_body_truncated_independent_partial,
   ``nsx_login_log_independent, ``nsx_sinks_independent,
